@@ -1,7 +1,11 @@
 // Package props holds one rule table per property.
 package props
 
-import "godcheck/core"
+import (
+	"strings"
+
+	"godcheck/core"
+)
 
 // Rule is the rule table of one property.
 type Rule struct {
@@ -13,3 +17,33 @@ type Rule struct {
 var Registry = map[string]Rule{}
 
 func register(id string, f func(r *core.Run)) { Registry[id] = Rule{Run: f} }
+
+// imp names obligations of another property's table that are also evaluated
+// under a property because its behaviour rests on that mechanism.
+type imp struct {
+	From, Prefix string
+	Keep         func(key string) bool
+	Why          string
+}
+
+var imports = map[string][]imp{
+	"C01": {{From: "C09", Prefix: "W/", Keep: func(k string) bool { return strings.HasPrefix(k, "D1/") },
+		Why: "the breaker's history is a RollingWindow: its lock discipline and bucket-exact advance/expiry/reduce formulas (C09-D1) are necessary for 'outcomes over the trailing 10 s'"}},
+	"C06": {{From: "C18", Prefix: "SF/", Keep: func(k string) bool { return strings.HasSuffix(k, "flightGroup") },
+		Why: "'at most one DB query at a time' rests on syncx.SingleFlight (C18 flight-group rules)"}},
+	"C17": {{From: "C18", Prefix: "SF/", Keep: func(k string) bool { return strings.HasSuffix(k, "flightGroup") },
+		Why: "Take's single flight rests on syncx.SingleFlight (C18 flight-group rules)"},
+		{From: "C10", Prefix: "TW/", Keep: func(k string) bool { return true },
+			Why: "expiry rests on the timing wheel (all C10 rules)"}},
+}
+
+// RunAll evaluates the property's own table and its imports.
+func RunAll(id string, r *core.Run) {
+	Registry[id].Run(r)
+	for _, im := range imports[id] {
+		if t, ok := Registry[im.From]; ok {
+			r.Import(t.Run, im.Prefix, im.Keep)
+			r.Explanation += " Also evaluated here (prefix " + im.Prefix + ", rules of " + im.From + "): " + im.Why + "."
+		}
+	}
+}
